@@ -16,6 +16,12 @@ SOLVER_FUNCS = [
 ]
 
 
+DEFAULT_PROPS = {'conelp': ('C01', 'C02'), 'lp': ('C01', 'C02'),
+                 'socp': ('C01', 'C02'), 'sdp': ('C01', 'C02'),
+                 'coneqp': ('C03',), 'qp': ('C03',), 'cpl': ('C04',),
+                 'cp': ('C04',), 'gp': ('C04',)}
+
+
 def tasks_for(funcs, tier):
     import importlib
     out = []
@@ -67,8 +73,16 @@ def feed(report, reps, props=None, kinds=None, funcs=None):
             report.trusted.add('unmodelled call (result unknown, arguments '
                                'checked to be solver-owned): ' + u)
         for o in r['obligations']:
-            if props is not None and o.get('prop') not in props:
-                continue
+            op = o.get('prop')
+            if props is not None:
+                if op is None:
+                    # engine-generated obligations (loop invariants, ...)
+                    # count for the properties the function serves
+                    if not set(DEFAULT_PROPS.get(r.get('function'), ())) & \
+                            set(props):
+                        continue
+                elif op not in props:
+                    continue
             if kinds is not None and o['kind'] not in kinds:
                 continue
             oid = '%s:%s' % (r['file'], o['site'])
